@@ -29,6 +29,7 @@ ATTR_KEYWORD = {
     'originator': 'originator-id',
     'cluster_list': 'cluster-list',
     'aigp': 'aigp',
+    'prefix_sid': 'bgp-prefix-sid',
     'generic': 'attribute',
 }
 ATTR_ORDER = list(ATTR_KEYWORD)
@@ -119,6 +120,9 @@ def near_bound(rec: dict) -> bool:
             return True
     if 'aigp' in a and _near(a['aigp'], (0, 2**64 - 1)):
         return True
+    if 'prefix_sid' in a and isinstance(a['prefix_sid'][0], int):
+        if _near(a['prefix_sid'][0], (0, 2**32 - 1)) or any(_near(x, (0, 2**24 - 1)) for t in a['prefix_sid'][1] for x in t):
+            return True
     asns = [x for _, seg in a.get('as_path', []) for x in seg]
     if 'aggregator' in a:
         asns.append(a['aggregator'][0])
@@ -312,6 +316,23 @@ def _m_aigp(draw, rec, over):
     return 'aigp', 'value'
 
 
+def _m_prefix_sid(draw, rec, over):
+    """label index at / beyond 2^32 - 1, an SRGB base or range at / beyond 2^24 - 1 (RFC 8669), in any tuple"""
+    which = draw(st.sampled_from(['index', 'base', 'range', 'range-second-tuple']))
+    index, srgb = 7, [[16000, 8000]]
+    if which == 'index':
+        index = 2**32 if over else 2**32 - 1
+        srgb = draw(st.sampled_from([[], srgb]))
+    else:
+        if which == 'range-second-tuple':
+            srgb = [[16000, 8000], [800000, 100]]
+        value = draw(st.sampled_from([2**24, 2**24 + 100, 2**32 - 1])) if over else 2**24 - 1
+        srgb[-1][0 if which == 'base' else 1] = value
+    rec['attrs']['prefix_sid'] = [index, srgb]
+    _order_add(rec, 'prefix_sid')
+    return 'bgp-prefix-sid', which
+
+
 def _m_mask(draw, rec, over):
     top = 32 if rec['afi'] == 1 else 128
     address = rec['prefix'].split('/')[0]
@@ -357,6 +378,7 @@ VALUE_MUTATIONS = {
     'extended-community': (_m_ext_community, lambda r: True),
     'path-information': (_m_path_information, lambda r: r['safi'] != 2),
     'aigp': (_m_aigp, lambda r: True),
+    'bgp-prefix-sid': (_m_prefix_sid, lambda r: r['form'] != 'family'),
     'mask': (_m_mask, lambda r: True),
     'rd': (_m_rd, lambda r: 'rd' in r),
     'attribute': (_m_generic, lambda r: True),
@@ -366,6 +388,8 @@ VALUE_MUTATIONS = {
 def _malformed(draw, rec) -> tuple:
     """(keyword, what): one token the grammar has no meaning for"""
     choices = ['next-hop', 'originator-id', 'cluster-list', 'aggregator-address', 'path-information', 'attribute-data', 'prefix', 'med', 'local-preference', 'origin', 'originator-id-ipv6', 'cluster-list-ipv6', 'aggregator-address-ipv6', 'aigp', 'as-path-token']
+    if rec['form'] != 'family':
+        choices += ['bgp-prefix-sid']
     if 'rd' in rec:
         choices += ['rd', 'rd']
     if 'labels' in rec:
@@ -419,6 +443,10 @@ def _malformed(draw, rec) -> tuple:
     if what == 'prefix-other-afi':
         rec['prefix'] = '2001:db8::/32' if rec['afi'] == 1 else '10.0.0.0/24'
         return 'prefix', 'other-afi'
+    if what == 'bgp-prefix-sid':
+        a['prefix_sid'] = draw(st.sampled_from([['-1', []], ['x', []], [7, [['-1', 1]]], [7, [[1, '-5']]], [7, [['x', 1]]]]))
+        _order_add(rec, 'prefix_sid')
+        return 'bgp-prefix-sid', 'malformed'
     if what in ('med', 'local-preference', 'aigp'):
         key = {'med': 'med', 'local-preference': 'local_pref', 'aigp': 'aigp'}[what]
         a[key] = draw(st.sampled_from(['-1', 'x', '1.5', '0x', '1e3']))
@@ -580,6 +608,8 @@ def route_cases(draw) -> dict:
             more = draw(textgen.prefix4(multicast=(rec['safi'] == 2)) if rec['afi'] == 1 else textgen.prefix6())
             if more != rec['prefix']:
                 rec['more_prefixes'] = [more]
+    if rec['form'] == 'family':
+        rec['attrs'].pop('prefix_sid', None)  # the `<afi> <safi>` form lists its keywords: bgp-prefix-sid is not one of them
     if rec['safi'] == 2:
         rec.pop('path_id', None)
         rec.pop('path_id_form', None)
@@ -671,7 +701,7 @@ def vpls_cases(draw) -> dict:
     rec['rd'] = draw(textgen.route_distinguisher())
     rec['nexthop'] = draw(textgen.ipv4_addr)
     attrs = draw(textgen.attributes(rich=False))
-    for k in ('large_community', 'aigp', 'generic', 'atomic', 'aggregator'):
+    for k in ('large_community', 'aigp', 'generic', 'atomic', 'aggregator', 'prefix_sid'):
         attrs.pop(k, None)
     if draw(st.booleans()):
         attrs.setdefault('ext_community', []).append(['l2info:19:0:1500:111', '800a130005dc006f'])
